@@ -46,7 +46,7 @@ var parseChain = map[string]bool{
 func init() {
 	register(&propertySpec{
 		ID: "C01", NeedCG: true, Quick: cfgAMD, Thorough: cfgAll,
-		Explanation: "Decides the structural conditions PAR2 repair rests on, for every path of the code: the only failure of reconstruction - a singular or under-determined system - is propagated as an error through every frame from the row reduction up to par2.Repair (ERRFLOW on the reconstruct chain); Repair returns nil only after every buffer it wrote matched the archive's 16k-hash and MD5, and a mismatch returns an error (WGUARD with error returns); writer and reader agree on the coder constructor, on its dimensions being the lengths of the very slices handed to it (the parity table is indexed by exponent), on slice cutting/padding and on the checksum functions (PAIR); every recovery block accepted as a parity shard has the slice size the coder's equal-length precondition needs (SHLEN); per-file damage flags are written to the record Repair reads, not to a copy (DEADST/LOCALCOPY); intact files are recognised with the full per-file predicate (SKIPOK); expected and found slice locations accumulate, so repeated slice contents do not consume recovery blocks (ACCUM); the coder workers partition the slice correctly for every goroutine count (RACE); Repair declares success only through Decoder.Repair (ENTRY-SEQ).",
+		Explanation: "Decides the structural conditions PAR2 repair rests on, for every path of the code: the only failure of reconstruction - a singular or under-determined system - is propagated as an error through every frame from the row reduction up to par2.Repair (ERRFLOW on the reconstruct chain); Repair returns nil only after every buffer it wrote matched the archive's 16k-hash and MD5, and a mismatch returns an error (WGUARD with error returns); writer and reader agree on the coder constructor, on its dimensions being the lengths of the very slices handed to it (the parity table is indexed by exponent), on slice cutting/padding and on the checksum functions (PAIR); every recovery block accepted as a parity shard has the slice size the coder's equal-length precondition needs (SHLEN); per-file damage flags are written to the record Repair reads, not to a copy (DEADST/LOCALCOPY); intact files are recognised with the full per-file predicate (SKIPOK); expected and found slice locations accumulate, so repeated slice contents do not consume recovery blocks (ACCUM); the coder workers partition the slice correctly for every goroutine count (RACE); Repair declares success only through Decoder.Repair (ENTRY-SEQ); the file writer replaces whole files (EFF write-impl).",
 		NotDecided:  []string{"that Repair succeeds whenever k blocks survive (matrix algebra, slice search at every offset)", "volume discovery beyond what C06 decides", "the values of the reconstructed bytes"},
 		Run: func(w *World, r *Report, tier string) {
 			guard(r, "ERRFLOW", func() {
@@ -60,6 +60,10 @@ func init() {
 			guard(r, "ACCUM", func() { ruleACCUM(w, r) })
 			guard(r, "RACE", func() { ruleRACE(w, r) })
 			guard(r, "ENTRY-SEQ", func() { ruleENTRYSEQ(w, r, "par2") })
+			guard(r, "EFF", func() { ruleEFF(w, r, effOpts{e1: true, impl: true, onlyPkg: "par2"}) })
+			guard(r, "MUSTPASS", func() { ruleMUSTPASS(w, r) })
+			guard(r, "ROWCOVER", func() { ruleROWCOVER(w, r) })
+			guard(r, "FILTER", func() { ruleFILTER(w, r) })
 		},
 	})
 
@@ -68,12 +72,13 @@ func init() {
 		Explanation: "Decides, for every path of the code (hence every archive state and both double-check settings): which code may mutate the filesystem at all and that the one primitive replaces whole files (EFF E1-E5), that every byte buffer Repair writes is the very buffer whose 16k-hash and MD5 were just compared with the hashes of the archive entry the target path was derived from (WGUARD), that a path is reported iff its write returned nil and reported paths survive to the caller also when Repair fails later (REPORT, REPORT-PROP), that writes are control-dependent on the file having been found damaged (SKIPOK), that Create's output names do not depend on the input names (CREATE-PATHS), and that no function reachable from Verify contains or reaches a write. These are necessary conditions: breaking any of them breaks the property.",
 		NotDecided:  []string{"byte equality with the original beyond MD5/16k-hash equality", "the effect of a torn ioutil.WriteFile", "correctness of the reconstruction arithmetic"},
 		Run: func(w *World, r *Report, tier string) {
-			guard(r, "EFF", func() { ruleEFF(w, r, effOpts{true, true, true, true, true, true}) })
+			guard(r, "EFF", func() { ruleEFF(w, r, effOpts{e1: true, e2: true, e3: true, e4: true, e5: true, impl: true}) })
 			guard(r, "WGUARD", func() { ruleWGUARD(w, r, false) })
 			guard(r, "REPORT", func() { ruleREPORT(w, r) })
 			guard(r, "REPORT-PROP", func() { ruleREPORTPROP(w, r) })
 			guard(r, "SKIPOK", func() { ruleSKIPOK(w, r) })
 			guard(r, "CREATE-PATHS", func() { ruleCREATEPATHS(w, r) })
+			guard(r, "NAMEFID", func() { ruleNAMEFID(w, r) })
 		},
 	})
 
@@ -88,6 +93,9 @@ func init() {
 				ruleDECIDEChecker(w, r)
 			})
 			guard(r, "GATE", func() { ruleGATE(w, r, gateOpts{par2: true}) })
+			guard(r, "CONST", func() { r.rule("CONST", ruleCONSTText); constHashOrders(w, r) })
+			guard(r, "MUSTPASS", func() { ruleMUSTPASS(w, r) })
+			guard(r, "GLOBCALL", func() { ruleGLOBCALL(w, r) })
 			guard(r, "DEADST", func() { ruleDEADST(w, r) })
 			guard(r, "ACCUM", func() { ruleACCUM(w, r) })
 			guard(r, "ENTRY-SEQ", func() { ruleENTRYSEQ(w, r, "par2") })
@@ -96,7 +104,7 @@ func init() {
 
 	register(&propertySpec{
 		ID: "C04", NeedCG: true, Quick: cfgAMD, Thorough: cfgAll,
-		Explanation: "Decides the structural conditions of the PAR1 round trip: encoder and decoder construct the same coder - reedsolomon.New(len(fileData), parity, WithPAR1Matrix()) - (PAIR); a data file counts as usable only after both hashes matched its entry, a parity volume only with verified control hash, the index volume's set hash and the volume number of its file name, and the probing loop covers exactly the volume numbers 1..max (GATE); the counts are incremented on the right edges and the verdict predicates equal the stated table (DECIDE); the coder's too-few-shards / singular error reaches the caller unchanged, where the classifier compares it by identity (ERRFLOW on the PAR1 chain, PAIR-ERRTYPE); the padding length is shown non-negative before make() (MKLEN); the full parity check runs only when all files are usable, names are sized per UTF-16 code unit, and verify/repair declare success only through the decoder (GATE, PAIR, ENTRY-SEQ).",
+		Explanation: "Decides the structural conditions of the PAR1 round trip: encoder and decoder construct the same coder - reedsolomon.New(len(fileData), parity, WithPAR1Matrix()) - (PAIR); a data file counts as usable only after both hashes matched its entry, a parity volume only with verified control hash, the index volume's set hash and the volume number of its file name, and the probing loop covers exactly the volume numbers 1..max (GATE); the counts are incremented on the right edges and the verdict predicates equal the stated table (DECIDE); the coder's too-few-shards / singular error reaches the caller unchanged, where the classifier compares it by identity (ERRFLOW on the PAR1 chain, PAIR-ERRTYPE); the padding length is shown non-negative before make() (MKLEN); the full parity check runs only when all files are usable, names are sized per UTF-16 code unit, and verify/repair declare success only through the decoder (GATE, PAIR, ENTRY-SEQ); the file writer replaces whole files (EFF write-impl).",
 		NotDecided:  []string{"the matrix algebra inside klauspost/reedsolomon", "the range of volume numbers probed and padding arithmetic as values", "UTF-16 name handling beyond using unicode/utf16 on both sides (C10)"},
 		Run: func(w *World, r *Report, tier string) {
 			guard(r, "PAIR", func() { rulePAIRpar1(w, r); rulePAIRERRTYPE(w, r) })
@@ -108,6 +116,7 @@ func init() {
 			guard(r, "ERRFLOW", func() { ruleERRFLOW(w, r, errflowScope{fnNames: par1Chain, tag: " on the PAR1 coder chain"}, 10) })
 			guard(r, "MKLEN", func() { ruleMKLEN(w, r) })
 			guard(r, "ENTRY-SEQ", func() { ruleENTRYSEQ(w, r, "par1") })
+			guard(r, "EFF", func() { ruleEFF(w, r, effOpts{e1: true, impl: true, onlyPkg: "par1"}) })
 		},
 	})
 
@@ -135,6 +144,9 @@ func init() {
 			guard(r, "PAIR", func() { rulePAIRpar2(w, r, pairOpts{decoder: true}) })
 			guard(r, "DEEPEQ", func() { ruleDEEPEQ(w, r, "par2") })
 			guard(r, "CONST", func() { constPacketLenBound(w, r) })
+			guard(r, "GLOBCALL", func() { ruleGLOBCALL(w, r) })
+			guard(r, "ORDERINDEP", func() { ruleORDERINDEP(w, r) })
+			guard(r, "FILTER", func() { ruleFILTER(w, r) })
 		},
 	})
 
@@ -145,6 +157,8 @@ func init() {
 		Run: func(w *World, r *Report, tier string) {
 			guard(r, "OWN", func() { ruleOWN(w, r, ownOpts{coder: true}) })
 			guard(r, "COPYLEN", func() { ruleCOPYLEN(w, r) })
+			guard(r, "ROWCOVER", func() { ruleROWCOVER(w, r) })
+			guard(r, "FILTER", func() { ruleFILTER(w, r) })
 			guard(r, "PAIR", func() { rulePAIRERRTYPE(w, r) })
 			guard(r, "ERRFLOW", func() { ruleERRFLOW(w, r, errflowScope{fnNames: coderChain, tag: " on the coder chain"}, 4) })
 			guard(r, "RACE", func() { ruleRACE(w, r) })
@@ -267,6 +281,7 @@ func init() {
 		NotDecided:  []string{"that the predicates reject exactly the traversing spellings on every platform (e.g. backslashes on Windows)"},
 		Run: func(w *World, r *Report, tier string) {
 			guard(r, "SANIT", func() { ruleSANIT(w, r) })
+			guard(r, "NAMEFID", func() { ruleNAMEFID(w, r) })
 			guard(r, "EFF", func() { ruleEFF(w, r, effOpts{e1: true, e2: true}) })
 		},
 	})
